@@ -8,10 +8,16 @@ package functions
 // preserved by every Set (checked), used at every Get.
 //@ func FunctionMap["like"][0].Function
 //@   requires cachetag(regexpCache) == typeidptr(regexp.Regexp)
+// C12: `s ~ p` is whether Go's regexp p matches s; `s ~* p` the same with the case-insensitive flag set on the
+// pattern ("(?i)" + p) — the subject and the pattern's own text are used as given. A pattern that does not compile is
+// an error. (regexp.Compile / MatchString: an uninterpreted compile-and-match, the engine is trusted; the memo table
+// returns under a key only a regexp compiled from that key — obligation cache.coherent at the Set.)
 //@ func FunctionMap["~"][0].Function
 //@   requires cachetag(regexpCache) == typeidptr(regexp.Regexp)
+//@   ensures matches: result1 == nil ==> isBool(result0, extBool("regexp.match", values[1].Str, values[0].Str))
 //@ func FunctionMap["~*"][0].Function
 //@   requires cachetag(regexpCache) == typeidptr(regexp.Regexp)
+//@   ensures matches: result1 == nil ==> isBool(result0, extBool("regexp.match", "(?i)" + values[1].Str, values[0].Str))
 
 // ---- result shapes ----
 //@ spec isInt(v Value, x int) bool = v.TypeID == 1 && v.Int == x
